@@ -18,7 +18,8 @@ LEAN = os.path.join(VERIF, 'lean')
 DRIVER_BIN = os.path.join(LEAN, '.lake', 'build', 'bin', 'addriver')
 EVID = os.path.join(VERIF, 'evidence')
 REPLAYS = os.path.join(VERIF, 'replays')
-WORK = os.path.join(VERIF, '.work')
+# scratch directory of THIS check process (workers are forked and inherit it); concurrent checks never share one
+WORK = os.environ.get('VERIF_WORK') or os.path.join(VERIF, '.work', 'p%d' % os.getpid())
 
 os.environ.setdefault('ASTRODENDRO_VERIF', '1')
 for _v in ('OMP_NUM_THREADS', 'OPENBLAS_NUM_THREADS', 'MKL_NUM_THREADS'):
